@@ -604,8 +604,21 @@ tx_outs:\n{tx_outs}
         """Returns whether the input has a valid signature"""
         # get the relevant input
         tx_in = self.tx_ins[input_index]
+        script_pubkey = tx_in.script_pubkey(self.network)
+        script_sig_commands = tx_in.script_sig.commands
+        if script_pubkey.is_p2wpkh() or script_pubkey.is_p2wsh() or script_pubkey.is_p2tr():
+            # native segwit is only spendable through the witness, the ScriptSig has to be empty
+            if len(script_sig_commands) > 0:
+                return False
+        elif script_pubkey.is_p2sh() and len(script_sig_commands) > 1:
+            last = script_sig_commands[-1]
+            if isinstance(last, bytes):
+                redeem_script = RedeemScript.convert(last)
+                if redeem_script.is_p2wpkh() or redeem_script.is_p2wsh():
+                    # p2sh-wrapped segwit: the ScriptSig is exactly the RedeemScript
+                    return False
         # combine the scripts
-        combined_script = tx_in.script_sig + tx_in.script_pubkey(self.network)
+        combined_script = tx_in.script_sig + script_pubkey
         # evaluate the combined script
         return combined_script.evaluate(self, input_index)
 
